@@ -16,4 +16,40 @@ def routeCompileCalls : List (String × String × String) := [
 def adapterTerminalLiterals : List (String × String) := [
   ("caddyconfig/httpcaddyfile/httptype.go:appendSubrouteToRouteList", "true")]
 
+/-- every write of a request-context value the routing reads (`context.WithValue(_, K, _)`, K among
+    routeGroupCtxKey / VarsCtxKey / ErrorCtxKey / OriginalRequestCtxKey) under modules/caddyhttp/**:
+    (file:function, key, value) -/
+def requestCtxWrites : List (String × String × String) := [
+  ("modules/caddyhttp/reverseproxy/healthchecks.go:doActiveHealthCheck", "VarsCtxKey", "?{…}"),
+  ("modules/caddyhttp/reverseproxy/healthchecks.go:doActiveHealthCheck", "OriginalRequestCtxKey", "*req"),
+  ("modules/caddyhttp/server.go:WithError", "ErrorCtxKey", "err"),
+  ("modules/caddyhttp/server.go:PrepareRequest", "VarsCtxKey", "?{…}"),
+  ("modules/caddyhttp/server.go:PrepareRequest", "routeGroupCtxKey", "make(?)"),
+  ("modules/caddyhttp/server.go:PrepareRequest", "OriginalRequestCtxKey", "originalRequest(r,&url2)"),
+  ("modules/caddyhttp/subroute.go:ServeHTTP", "routeGroupCtxKey", "make(?)")]
+
+/-- every mention of `routeGroupCtxKey` inside a function body: (file:function, the call it is an
+    argument of — `WithValue` creates the map, `Value` reads it — or "other") -/
+def routeGroupCtxUses : List (String × String) := [
+  ("modules/caddyhttp/routes.go:wrapRoute", "Value"),
+  ("modules/caddyhttp/server.go:PrepareRequest", "WithValue"),
+  ("modules/caddyhttp/subroute.go:ServeHTTP", "WithValue")]
+
+/-- the statements of the outer loop body of `MatcherSets.FromInterface` (one round per loaded matcher set) -/
+def fromInterfaceLoopBody : List String := [
+  "decl",
+  "range matcherSetIfaces",
+  "*ms = append(*ms,matcherSet)"]
+
+/-- the statements of the outer loop body of `MatchNot.Provision` (one round per loaded matcher set of a `not`) -/
+def matchNotProvisionLoopBody : List String := [
+  "decl",
+  "range modMap",
+  "m.MatcherSets = append(m.MatcherSets,ms)"]
+
+/-- the statements of the loops of `Route.ProvisionHandlers` -/
+def provisionHandlersLoops : List String := [
+  "range ?: r.Handlers = append(r.Handlers,?)",
+  "range r.Handlers: r.middleware = append(r.middleware,wrapMiddleware(ctx,midhandler,metrics))"]
+
 end CaddyModel.Gen
